@@ -20,14 +20,20 @@ Definition subject (n1 : nat) (o : op) : option nat :=
 
 Definition on_grid (tick p : N) : bool := p mod tick =? 0.
 (* an off-grid modification price is inside the domain: the request is ignored (C12) *)
-Definition price_ok (tick : N) (p : option N) : bool :=
-  match p with Some p => (0 <? p) && (p <? MAXP) | None => true end.
+Definition price_in (wide : bool) (p : N) : bool :=
+  if wide then p <? W32 else (0 <? p) && (p <? MAXP).
+Definition price_ok_gen (wide : bool) (tick : N) (p : option N) : bool :=
+  match p with Some p => price_in wide p | None => true end.
+Definition price_ok := price_ok_gen false.
 Definition vol_ok (v : option N) : bool :=
   match v with Some v => (1 <=? v) && (v <? W32) | None => true end.
 
 (** ** The valid-history clause of the properties, as a predicate on the
     observation before the operation *)
-Definition valid_op (tick : N) (o1 : observation) (o : op) : bool :=
+(** [wide = false]: the domain the properties C01-C07 and C13 state (limit prices strictly between 0
+    and 2^32-1). [wide = true]: C12's domain, which quantifies over arbitrary prices - every u32 price,
+    the two ends included. *)
+Definition valid_op_gen (wide : bool) (tick : N) (o1 : observation) (o : op) : bool :=
   let n := length (ob_orders o1) in
   (* room: the side the volume may come to rest on, and the traded-volume counter, stay below 2^32
      (a sufficient condition for the absence of u32 overflow, evaluated before the operation) *)
@@ -36,14 +42,14 @@ Definition valid_op (tick : N) (o1 : observation) (o : op) : bool :=
   let side_of id := o_side (oget (ob_orders o1) id) in
   let stamps := ob_t o1 + N.of_nat n + 2 <? MAXT in
   match o with
-  | OCreate _ v _ p => (1 <=? v) && (v <? W32) && (match p with Some p => (0 <? p) && (p <? MAXP) | None => true end)
+  | OCreate _ v _ p => (1 <=? v) && (v <? W32) && price_ok_gen wide tick p
   | OCreatePlace sd v _ p =>
-      (1 <=? v) && room sd v && stamps && (match p with Some p => (0 <? p) && (p <? MAXP) | None => true end)
+      (1 <=? v) && room sd v && stamps && price_ok_gen wide tick p
   | OPlace id | OEvent (EvNew id) =>
       Nat.ltb id n && room (side_of id) (o_vol (oget (ob_orders o1) id)) && stamps
   | OCancel id | OEvent (EvCancel id) => Nat.ltb id n
   | OModify id p v | OEvent (EvModify id p v) =>
-      Nat.ltb id n && price_ok tick p && vol_ok v && stamps
+      Nat.ltb id n && price_ok_gen wide tick p && vol_ok v && stamps
       && (let ord := oget (ob_orders o1) id in
           let cur := if status_eqb (o_status ord) SActive then o_vol ord else 0 in
           let v' := match v with Some v => v | None => o_vol ord end in
@@ -52,6 +58,7 @@ Definition valid_op (tick : N) (o1 : observation) (o : op) : bool :=
   | OSetTime t => (ob_t o1 <=? t) && (t + N.of_nat n + 2 <? MAXT)
   | _ => true
   end.
+Definition valid_op := valid_op_gen false.
 
 (** ** C02: every published number equals its recomputation from the order list *)
 Definition c02_ok (L : nat) (tick : N) (never_disabled : bool) (o : observation) : N :=
